@@ -4,7 +4,7 @@ import hashlib
 ORACLES = {
     "C10": {"valid_holder_accepted", "nonrevoc_enforced", "honest_proof_verifies"},
     "C07": {"valid_holder_accepted", "honest_proof_verifies"},
-    "C01": {"honest_proof_verifies", "revealed_values_equal", "prover_builds_true", "prover_no_panic", "other_nonce_rejected"},
+    "C01": {"honest_proof_verifies", "revealed_values_equal", "prover_builds_true", "prover_no_panic", "other_nonce_rejected", "valid_holder_accepted"},
     "C02": {"altered_proof_rejected", "honest_proof_verifies", "forgery_rejected", "unanswered_request_rejected"},
     "C03": {"prover_builds_true", "prover_refuses_false", "prover_no_panic", "honest_proof_verifies",
             "altered_proof_rejected", "cheating_predicate_rejected"},
